@@ -17,7 +17,7 @@ SPEC = "Mempool"
 OBS_INVARIANTS = {
     "C22": ["ObsChain", "ObsKnown", "ObsConsistent", "ObsNextBlockValid", "ObsLinks", "ObsTotals"],
     "C26": ["ObsReplacement", "ObsRejectNoEvict"],
-    "C28": ["ObsTestPure"],
+    "C28": ["ObsTestPure", "ObsPolicyImpliesConsensus"],
 }
 
 
@@ -91,10 +91,11 @@ def check_deviations(ctx, prop, res, uni, cfg, mpath, args):
         line = dict(pre=pre, act=d["action"], res=st.get("@result"), exp=case["steps"][k]["m"], post=st["obs"])
         lines.setdefault(vflib.canon(line), (line, d, case))
         if prop == "C28" and d["action"][0] in ("submit", "test"):
-            tw = dict(init=case["init"], steps=[dict(a=s["a"], r=s["r"], exp=s["exp"]) for s in case["steps"][:k]] +
+            tw = dict(init=case["init"], steps=[dict(a=s["a"], r=None, exp=s["exp"]) for s in case["steps"][:k]] +
                       [dict(a=["twin", d["action"][1]], r=dict(agree=True, pure=True), exp=None)])
             twins.setdefault(vflib.canon([pre, d["action"][1]]), tw)
     by_class = ctx.extra.setdefault("deviation_classes", {})
+    ctx.log("%d deviations from the prediction (%d distinct observed transitions); classifying for %s" % (len(devs), len(lines), prop))
     for line, d, case in lines.values():
         exp_r = case["steps"][d["step"]]["r"]
         got = line["res"] or {}
@@ -249,5 +250,21 @@ def need(stats, pairs, name):
 
 
 def replay(ctx, path):
-    """./check <ID> --replay <file>"""
-    return vflib.generic_replay(ctx, path)
+    """./check <ID> --replay <file>: re-execute one stored failing case against the current tree (the universe is re-materialised
+    and re-measured first, the work directory of the original run is gone)."""
+    o = json.load(open(path))
+    if o.get("case") is None or not o.get("args"):
+        print("replay file has no replayable payload")
+        return 2
+    m = re.match(r"universe_(\w+?)_(MU_\w+)\.json$", os.path.basename(o["args"][0]))
+    if not m:
+        print("replay file does not name its universe")
+        return 2
+    binary = ctx.build_adapter("mempool")
+    upath, mpath, universe, meas = prepare(ctx, binary, m.group(1), m.group(2) + ".cfg")
+    r = ctx.run_harness(binary, o.get("mode", "replay"), [json.dumps(o["case"])], args=[upath], nproc=1, name="replay")
+    bad = r["mismatches"] + r["aborts"] + r["deviations"]
+    for x in bad:
+        print("REPLAY %s:" % x.get("kind"), json.dumps(x)[:2000])
+    print("REPLAY result: %s" % ("still differs from the prediction" if bad else "passes"))
+    return 1 if bad else 0
